@@ -25,7 +25,18 @@ pub async fn get_request_addr(stream: &mut TcpStream) -> anyhow::Result<Address>
         match next {
             Proxy::Http(address) => Ok(address),
             Proxy::Https(address) => {
-                let _ = stream.read(&mut [0; 1024]).await?;
+                // consume the CONNECT request exactly: up to and including the blank line that ends its head, however it is segmented
+                let mut head = Vec::new();
+                let mut byte = [0; 1];
+                while !head.ends_with(b"\r\n\r\n") {
+                    if head.len() >= 8192 {
+                        bail!("CONNECT request head is longer than 8192 bytes");
+                    }
+                    if stream.read(&mut byte).await? == 0 {
+                        bail!("connection closed inside the CONNECT request");
+                    }
+                    head.push(byte[0]);
+                }
                 stream.write_all(b"HTTP/1.1 200 Connection established\r\n\r\n").await?;
                 Ok(address)
             }
